@@ -27,6 +27,30 @@
 namespace celma::container {
 
 
+namespace {
+
+
+/// Enlarges the vector so that it can hold the given position.
+/// @param[in,out]  data  The vector to enlarge.
+/// @param[in]      pos   The position that must be available afterwards.
+/// @throw  std::length_error if no vector can hold this position.
+void growFor( std::vector< bool>& data, size_t pos) noexcept( false)
+{
+
+   // (pos + 1) would wrap around resp. the new size would not fit into a
+   // size_t anymore
+   if (pos >= data.max_size())
+      throw std::length_error( "position is too large for a dynamic bitset");
+
+   data.resize( (pos + 1) * 1.5);
+
+} // growFor
+
+
+} // namespace
+
+
+
 
 /// Constructor.
 ///
@@ -192,7 +216,7 @@ DynamicBitset& DynamicBitset::set( size_t pos, bool value)
 {
 
    if (pos >= mData.size())
-      mData.resize( (pos + 1) * 1.5);
+      growFor( mData, pos);
 
    mData[ pos] = value;
 
@@ -224,7 +248,7 @@ DynamicBitset& DynamicBitset::reset( size_t pos)
 {
 
    if (pos >= mData.size())
-      mData.resize( (pos + 1) * 1.5);
+      growFor( mData, pos);
 
    mData[ pos] = false;
 
@@ -256,7 +280,7 @@ DynamicBitset& DynamicBitset::flip( size_t pos)
 {
 
    if (pos >= mData.size())
-      mData.resize( (pos + 1) * 1.5);
+      growFor( mData, pos);
 
    mData[ pos] = !mData[ pos];
 
@@ -369,7 +393,7 @@ DynamicBitset::reference DynamicBitset::operator []( size_t pos) noexcept( true)
 {
 
    if (pos >= mData.size())
-      mData.resize( (pos + 1) * 1.5);
+      growFor( mData, pos);
 
    return mData[ pos];
 } // DynamicBitset::operator []
